@@ -77,7 +77,8 @@ def _lattice_time(rng, cur, step=10 * MS):
 def _c08_profile(rng, asyncish):
     return prof(n_states=(3, 8), max_depth=rng.choice((2, 2, 3)), p_after=0.55, events=3, p_trans=0.5,
                 p_history=0.08, p_parallel=0.10, p_always=0.05, p_raise=0.05,
-                p_slow_act=0.10, p_async_act=(0.10 if asyncish else 0.0), p_zero_delay=0.08,
+                p_slow_act=0.10, p_async_act=(0.10 if asyncish else 0.0), p_zero_delay=0.08, p_named_delay=0.35, p_ctx_delay=0.5,
+                p_assign=0.3,
                 w_target={"none": 1, "self_re": 2, "self": 1, "sibling": 6, "any": 4})
 
 
@@ -160,7 +161,7 @@ register(
 # core sequential families (C01, C02, C03, C10, C11, C16 share the generator)
 # ===========================================================================
 
-def seq_ops(rng, mg, n_lo=4, n_hi=12, p_can=0.0, p_adv=0.0, extra_events=()):
+def seq_ops(rng, mg, n_lo=4, n_hi=12, p_can=0.0, p_adv=0.0, extra_events=(), p_batch=0.0):
     from .gen import SCALE
     n_hi = min(25, int(n_hi * SCALE["v"]))
     ops = [{"op": "start"}]
@@ -172,6 +173,10 @@ def seq_ops(rng, mg, n_lo=4, n_hi=12, p_can=0.0, p_adv=0.0, extra_events=()):
         elif r < p_can + p_adv:
             ops.append({"op": "advance", "dt": rng.choice((10, 20, 30, 50, 100)) * MS})
             ops.append({"op": "obs", "label": "adv"})
+        elif p_batch and r < p_can + p_adv + p_batch:
+            # several events accepted in one call: the tail is queued behind whatever the head does (complete the machine...)
+            k = rng.randint(2, 4)
+            ops.append({"op": "send_events", "events": [{"type": rng.choice(evs), "tag": 1000 * len(ops) + j} for j in range(k)]})
         else:
             ev = rng.choice(evs) if rng.random() > 0.04 else "E_unknown"
             ops.append({"op": "send", "event": ev, "tag": len(ops)})
@@ -419,12 +424,12 @@ register(
 # ===========================================================================
 # C10 - completion
 # ===========================================================================
-_C10 = dict(p_falsy_output=0.25, p_final=0.45, p_on_done=1.0, p_parallel=0.3, p_compound=0.35, p_history=0.05, p_always=0.05, p_raise=0.08,
+_C10 = dict(p_callable_output=0.25, p_falsy_output=0.25, p_final=0.45, p_on_done=1.0, p_parallel=0.3, p_compound=0.35, p_history=0.05, p_always=0.05, p_raise=0.08,
             p_ondone_targetless=0.4, n_states=(5, 12), p_trans=0.55, p_machine_output=0.4, p_out=0.6)
 
 
 def gen_c10(engine, salt, ops_kw=None, **kw):
-    base = gen_core(engine, salt, ops_kw=ops_kw or {"n_lo": 5, "n_hi": 14}, **dict(_C10, **kw))
+    base = gen_core(engine, salt, ops_kw=dict(ops_kw or {"n_lo": 5, "n_hi": 14}, p_batch=0.25), **dict(_C10, **kw))
 
     def g(seed):
         sc = base(seed)
@@ -554,7 +559,7 @@ register(
 # ===========================================================================
 # C05 - engine equivalence
 # ===========================================================================
-_C05 = dict(p_history=0.0, p_parallel=0.25, p_final=0.12, p_always=0.12, p_raise=0.0, p_assign=0.3, p_choose=0.0, p_pure=0.0,
+_C05 = dict(p_callable_output=0.3, p_on_done=0.5, p_history=0.0, p_parallel=0.25, p_final=0.12, p_always=0.12, p_raise=0.0, p_assign=0.3, p_choose=0.0, p_pure=0.0,
             p_enq=0.0, n_states=(4, 11), p_extra_entry=0.25, assign_only=True)
 
 
@@ -582,6 +587,8 @@ register(
               ("eq_services", 2, gen_c05(54, ("sync", "async", "async2"), p_invoke=0.3, svc_kinds=("sync",), p_raise=0.1)),
               # the pure functions "start no timer, service or actor": machines full of invokes (callables and child machines),
               # delays and spawn actions, walked through the pure API only
+              # done.state data computed by a dynamic (callable) output of the completing final state
+              ("eq_done_data", 2, gen_c05(58, ("sync", "async", "pure"), p_final=0.35, p_on_done=1.0, p_callable_output=0.6, p_compound=0.45)),
               ("pure_starts_nothing", 1, gen_c05(57, ("pure",), p_invoke=0.5, svc_kinds=("sync", "machine"), p_after=0.4, p_raise=0.1)),
               ("eq_hist_parallel", 1, gen_c05(55, ("sync", "async"), hist_parallel=True, p_parallel=0.4, p_history=0.4, p_raise=0.1,
                                               p_choose=0.1, p_enq=0.1))],
